@@ -65,6 +65,9 @@ pub struct Tracer {
     pub names_seen: Vec<(&'static str, String)>,
     /// Index into `frames` of the first frame of the current op.
     pub op_frame_start: usize,
+    /// File in which the last `open` positioned the writer (the file holding the end of the log at that moment,
+    /// before any write of recovery's own GC).
+    pub writer_at_open: String,
 }
 
 impl Tracer {
@@ -139,6 +142,7 @@ impl Tracer {
                     if !self.pending.is_empty() {
                         return Err("WriterAt with bytes pending in the tracer".to_string());
                     }
+                    self.writer_at_open = name.clone();
                     self.cur_name = name;
                     self.cur_off = offset;
                 }
